@@ -51,8 +51,8 @@ cpdef int date_to_idx_fast(
     # Calculate difference in seconds
     diff_seconds = _total_seconds(date - start_date)
 
-    # Integer division for index
-    idx = <int>(diff_seconds / <double>resolution)
+    # Floor division for the index: an instant shortly before the start lies in slot -1, not 0
+    idx = <int>floor(diff_seconds / <double>resolution)
 
     if force_into_project:
         if idx < 0:
